@@ -287,6 +287,164 @@ func (c *fctx) forStmt(x *ast.ForStmt, rest []ast.Stmt, k *cont, n int) (string,
 	return b.String() + r, err
 }
 
+// rangeStmt: `for _, x := range xs { … }` over a slice that the body does not assign: structural
+// recursion over the list (Go evaluates the range expression once).
+func (c *fctx) rangeStmt(x *ast.RangeStmt, rest []ast.Stmt, k *cont, n int) (string, error) {
+	if x.Tok != token.DEFINE || x.Value == nil {
+		return "", fmt.Errorf("unsupported form of range at %s", fset.Position(x.Pos()))
+	}
+	if key, ok := x.Key.(*ast.Ident); !ok || key.Name != "_" {
+		return "", fmt.Errorf("range with an index variable not supported at %s", fset.Position(x.Pos()))
+	}
+	vid, ok := x.Value.(*ast.Ident)
+	if !ok {
+		return "", fmt.Errorf("unsupported range value at %s", fset.Position(x.Pos()))
+	}
+	e, err := c.expr(x.X)
+	if err != nil {
+		return "", err
+	}
+	if e.t.k != kList || e.t.elem == nil {
+		return "", fmt.Errorf("range over %s not supported at %s", e.t.lean, fset.Position(x.Pos()))
+	}
+	var b strings.Builder
+	b.WriteString(c.flush(n))
+	c.loopNo++
+	lname := fmt.Sprintf("%s.loop%d", c.cfg.lean, c.loopNo)
+	mods := c.modified(x.Body.List)
+	if root := c.rootObj(x.X); root != nil {
+		for _, o := range mods {
+			if o == root {
+				return "", fmt.Errorf("the ranged slice is assigned inside the loop at %s", fset.Position(x.Pos()))
+			}
+		}
+	}
+	hasRet := hasReturn(x.Body)
+	isMod := map[types.Object]bool{}
+	for _, o := range mods {
+		isMod[o] = true
+	}
+	var ro []types.Object
+	for _, o := range c.freeVars(x.Body) {
+		if !isMod[o] {
+			ro = append(ro, o)
+		}
+	}
+	saved := c.snapshot()
+	savedPre := c.pre
+	c.pre = nil
+	var binders, roNames, modTypes []string
+	if c.cfg.extra != "" {
+		binders = append(binders, c.cfg.extra)
+		roNames = append(roNames, c.cfg.extraArgs)
+	}
+	for _, o := range ro {
+		t, err := c.leanTypeOfObj(o)
+		if err != nil {
+			return "", err
+		}
+		binders = append(binders, fmt.Sprintf("(%s : %s)", c.names[o], t))
+		roNames = append(roNames, c.names[o])
+	}
+	for _, o := range mods {
+		t, err := c.leanTypeOfObj(o)
+		if err != nil {
+			return "", err
+		}
+		modTypes = append(modTypes, t)
+	}
+	modTuple := "Unit"
+	if len(modTypes) == 1 {
+		modTuple = modTypes[0]
+	} else if len(modTypes) > 1 {
+		modTuple = strings.Join(modTypes, " × ")
+	}
+	retT := "Res (" + modTuple + ")"
+	if hasRet {
+		rt := "Unit"
+		if len(c.res) == 1 {
+			rt = c.res[0].lean
+		} else if len(c.res) > 1 {
+			var ps []string
+			for _, r := range c.res {
+				ps = append(ps, r.lean)
+			}
+			rt = strings.Join(ps, " × ")
+		}
+		retT = fmt.Sprintf("Res (Option (%s) × (%s))", rt, modTuple)
+	}
+	sigma := ""
+	if c.state != nil {
+		sigma = "{σ : Type} "
+	}
+	var modNames []string
+	for _, o := range mods {
+		modNames = append(modNames, c.names[o])
+	}
+	exit := "pure " + c.tupleOf(mods)
+	if hasRet {
+		exit = "pure (none, " + c.tupleOf(mods) + ")"
+	}
+	var d strings.Builder
+	fmt.Fprintf(&d, "def %s %s%s : List %s", lname, sigma, strings.Join(binders, " "), paren(e.t.elem.lean))
+	for _, t := range modTypes {
+		fmt.Fprintf(&d, " → %s", paren(t))
+	}
+	fmt.Fprintf(&d, " → %s\n", retT)
+	fmt.Fprintf(&d, "  | []%s => %s\n", prefixEach(", ", modNames), exit)
+	restName := c.fresh("rest")
+	vobj := c.info.Defs[vid]
+	vname := "_"
+	if vobj != nil && vid.Name != "_" {
+		vname = c.declare(vobj)
+	}
+	fmt.Fprintf(&d, "  | %s :: %s%s => do\n", vname, restName, prefixEach(", ", modNames))
+	c.loops = append(c.loops, loopFrame{name: lname, mods: mods, hasRet: hasRet, recArg: restName})
+	lk := &cont{kind: "loopnext", lname: lname, lro: roNames}
+	body, err := c.stmts(x.Body.List, lk, 2)
+	if err != nil {
+		return "", err
+	}
+	d.WriteString(body)
+	c.loops = c.loops[:len(c.loops)-1]
+	c.restore(saved)
+	c.pre = savedPre
+	c.aux = append(c.aux, d.String())
+
+	args := append([]string{}, roNames...)
+	args = append(args, paren(e.s))
+	args = append(args, modNames...)
+	call := lname + " " + strings.Join(args, " ")
+	pat := c.tupleOf(mods)
+	if len(mods) == 0 {
+		pat = "_"
+	}
+	if hasRet {
+		rv := c.fresh("ret")
+		fmt.Fprintf(&b, "%slet (%s, %s) ← %s\n", ind(n), rv, pat, call)
+		restS, err := c.stmts(rest, k, n+1)
+		if err != nil {
+			return "", err
+		}
+		var rnames []string
+		rpat := "_"
+		if len(c.res) == 1 {
+			rnames = []string{c.fresh("rv")}
+			rpat = rnames[0]
+		} else if len(c.res) > 1 {
+			for range c.res {
+				rnames = append(rnames, c.fresh("rv"))
+			}
+			rpat = "(" + strings.Join(rnames, ", ") + ")"
+		}
+		fmt.Fprintf(&b, "%smatch %s with\n%s| some %s =>\n%s%s| none => do\n%s", ind(n), rv, ind(n), rpat, c.emitReturn(rnames, n+1), ind(n), restS)
+		return b.String(), nil
+	}
+	fmt.Fprintf(&b, "%slet %s ← %s\n", ind(n), pat, call)
+	r, err := c.stmts(rest, k, n)
+	return b.String() + r, err
+}
+
 func sortStrings(xs []string) {
 	for i := range xs {
 		for j := i + 1; j < len(xs); j++ {
